@@ -7,6 +7,7 @@
 From Coq Require Import ZArith NArith List Bool Arith Sorting.Mergesort Orders.
 Import ListNotations.
 From Verif Require Import Lib.Corr Lib.Hashring_Ketama Gen.C18.
+From Verif Require Export Lib.Hashring_Answers.
 Close Scope Z_scope.
 
 (* ---------------- labelpb.HashWithPrefix ---------------- *)
@@ -55,24 +56,6 @@ Definition simple_getn (ring : list Z) (h : Z) (n : nat) : option Z :=
 (* the same index with the uint64 wrap-around of h+n made explicit (hand-written) *)
 Definition simple_idx_wrap (len : nat) (h : Z) (n : nat) : Z :=
   Z.rem (Z.modulo (h + Z.of_nat n) (2 ^ 64)) (Z.of_nat len).
-
-(* ---------------- ketama lookups ---------------- *)
-Definition ketama_answers (eps : list (Z * list Z)) (rf : nat) (v : Z) : option (list nat) :=
-  match ketama_new eps rf with
-  | KOk ring reps =>
-      Some (map (fun n => match ketama_getn (length eps) ring reps v n with Some e => e | None => length eps end) (seq 0 rf))
-  | _ => None
-  end.
-
-Definition permute {A} (d : A) (l : list A) (perm : list nat) : list A := map (fun i => nth i l d) perm.
-
-(* per-zone replica counts differ by at most one *)
-Definition az_of (eps : list (Z * list Z)) (e : nat) : Z := fst (nth e eps (0%Z, [])).
-Definition zone_count (eps : list (Z * list Z)) (ans : list nat) (az : Z) : nat :=
-  length (filter (fun e => (az_of eps e =? az)%Z) ans).
-Definition balanced (eps : list (Z * list Z)) (ans : list nat) : bool :=
-  let azs := az_set [] eps in
-  forallb (fun a => forallb (fun b => zone_count eps ans a <=? zone_count eps ans b + 1) azs) azs.
 
 (* ---------------- cases ---------------- *)
 Inductive case :=
